@@ -18,7 +18,8 @@
 //   bytes seen by every OTHER consumer are unchanged; a successful write happened only on a
 //   payload nobody else holds; a write by a consumer whose payload is held by somebody else
 //   panics; mutating consumers' payloads are distinct from everybody else's; payload shared by
-//   >= 2 consumers is read-only; returned error leaves == all consumer error leaves in call order.
+//   >= 2 consumers is read-only; returned error leaves == all consumer error leaves in call order;
+//   Capabilities().MutatesData of the fan-out is true exactly when there is a consumer and all mutate.
 package fanoutconsumer
 
 import (
@@ -598,6 +599,13 @@ func vRunFan[T comparable, C any](ops vSigOps[T, C], out *vOut, cs vFanCase) {
 	}
 	if origToMut && !capObs {
 		fail("original-mutated-but-not-advertised", "a mutating consumer received the caller's payload although Capabilities().MutatesData is false")
+	}
+	allMut := n > 0
+	for _, c := range cs.caps {
+		allMut = allMut && c
+	}
+	if capObs != allMut {
+		fail("capability-not-exact", fmt.Sprintf("Capabilities().MutatesData=%v but consumers' capabilities are %v (must be true exactly when all of >= 1 consumers mutate)", capObs, cs.caps))
 	}
 	if cs.roIn && origToMut {
 		fail("read-only-input-given-to-mutator", "a mutating consumer received the caller's read-only payload")
